@@ -64,7 +64,7 @@ CHECKS = {
     "C17": dict(
         module="checks.c17",
         engine="sim_transforms",
-        text="A fresh simulated process per run holds a base module and a growing set of derived modules; seeded histories of derive (any chain order) / call / call-original / sync / drop with injected failing calls, Dynamo resets and first-call interruptions are checked after every operation for: original untouched, no shared storage, repeatability, order independence, agreement with hand-written twins, and recovery after faults. Exploration level.",
+        text="A fresh simulated process per run holds a base module and a growing set of derived modules; seeded histories of derive (any chain order) / call / call-original / sync / perturb / drop with injected failing calls, Dynamo resets and first-call interruptions are checked after every operation for: original untouched, no shared storage, repeatability, order independence, agreement with hand-written twins, a derived module carrying the state of the module it was derived from, and recovery after faults. Exploration level.",
         note="TorchDynamo/AOT/Inductor run as real opaque components whose internal scheduling is not controlled; the simulator controls the operations issued to them, their knobs and resets; exceptions are injected only where a synchronous exception can occur (not at inert lines, not inside finally/except bodies, not at the re-visit of a with header); recorded finding D16 (recompile-limit fallback with more than 8 live modules) is probed deterministically.",
         technique="deterministic simulation: fork-per-run worlds, seeded transform/call histories with exception injection at first-call sites (sys.settrace), Dynamo reset and failing-call faults, reference twins, shrinking + replay",
         ref="DESIGN.md §3 C17",
@@ -72,8 +72,8 @@ CHECKS = {
     "C18": dict(
         module="checks.c18",
         engine="sim_track",
-        text="Run histories (forward-only / backward from subsets of outputs, repeated, with resets) of one tracked module are simulated and after every run outputs/gradients are compared bitwise with the untracked module and the recorded metrics with statistics recomputed from independently captured tensors; stale backward metrics across runs are the history-dependent part. Exploration level.",
-        note="Values and gradients are observed in the run under test through a wrapper around the tracking backend object found in tracked.backends (instance-level run_node + tensor hooks; installed by the harness, not in /repo); analyse_module is compared with an independent second interpreter; float32 reductions compared at 1e-5 relative, printed 3-digit numbers at 6e-3; rounding-level differences between tracked and untracked results are the recorded finding D13.",
+        text="Run histories (forward-only / backward from subsets of outputs, repeated, with resets, with other programs tracked or analysed earlier in the same process) of one tracked module are simulated and after every run outputs/gradients are compared bitwise with the untracked module and the recorded metrics with statistics recomputed from independently captured tensors; stale backward metrics across runs are the history-dependent part. Exploration level.",
+        note="Values and gradients are observed in the run under test through a wrapper around the tracking backend object found in tracked.backends (instance-level run_node + tensor hooks; installed by the harness, not in /repo); analyse_module is compared with an independent second interpreter; float32 reductions compared at 1e-5 relative, printed 3-digit numbers at 6e-3; rounding-level differences between tracked and untracked results (at most 1e-5 of the largest value, or within 8x the measured effect of one-ulp perturbations of every intermediate for programs that amplify rounding noise) are the recorded finding D13.",
         technique="deterministic simulation: seeded run histories over mutable metrics state, independent capture oracle",
         ref="DESIGN.md §3 C18",
     ),
